@@ -12,4 +12,7 @@ for p in sorted(glob.glob(os.path.join(HERE, "seeded", "*", "meta.json"))):
     cell = ", ".join(caught) if caught else "NOT CAUGHT"
     if missed and caught:
         cell += " (not by: " + ", ".join(missed) + ")"
-    print(f"| {m['id']} | {m['property']} | {m.get('what_changed', '')} | {m.get('needs_to_manifest', '')} | {cell} |")
+    note = " ".join(x for x in (m.get("status_note"), m.get("rebase_note")) if x)
+    if note:
+        cell += " — " + note
+    print(f"| {m['id']} | {m['property']} | {m.get('what_changed', '')} | {m.get('needs_to_manifest', '')} | {cell} |".replace("\n", " "))
